@@ -297,10 +297,24 @@ def build_xv(ctx, msgs, jsons):
                       {'mode': 'xv-model', 'ids': f['ids'], 'group': m['group'], 'json': m.get('json')},
                       signature={'kind': 'xv-fresh-vs-model', 'shape': f['shape'], 'what': why.split(':')[0]})
     xv, expect = [], {}
+    crng = ctx.rng('xv-cuts')
+    from harness import coder_io
     for f in fams:
-        ent = {'name': f['name'], 'shape': f['shape'], 'E': f['E'], 'class': f['class'], 'ids': f['ids'], 'msgs': [], 'jsons': []}
+        ent = {'name': f['name'], 'shape': f['shape'], 'E': f['E'], 'class': f['class'], 'ids': f['ids'], 'msgs': [], 'jsons': [], 'cuts': []}
         for m in f['members']:
             name = '%s@%s' % (f['name'], m['group'])
+            # the same message cut somewhere inside its data section: the decode dies half way through the template, with
+            # whatever operators are in force there (associated-field stack, 201/202/207/208 registers, new reference values,
+            # a half-defined bit-map) left in the coder state of that message
+            try:
+                pos, n = coder_io.locate_sections(m['bytes'])[4]
+                if n > 5:
+                    cut = pos + 4 + crng.randrange(0, n - 4)
+                    cname = '%s!cut%d' % (name, cut - pos - 4)
+                    msgs.append({'name': cname, 'cls': 'xv-damaged', 'hex': m['bytes'][:cut].hex()})
+                    ent['cuts'].append(cname)
+            except Exception:  # noqa
+                pass
             msgs.append({'name': name, 'cls': 'xv', 'hex': m['bytes'].hex()})
             jsons.append({'name': name + '.json', 'cls': 'xv', 'text': m['json']})
             ent['msgs'].append(name)
@@ -1157,6 +1171,9 @@ def gen_xv_history(rng, pool, n_other, versions, heavy):
                 r = rng.random()
                 if r < 0.7:
                     m = f['msgs'][k]
+                    if f.get('cuts') and rng.random() < 0.35:
+                        # a decode that dies inside the data section first (of this family or of another one of the history)
+                        core_ops.append({'k': 'proc', 'src': 'dec', 'c': c, 'm': rng.choice(rng.choice(fams).get('cuts') or f['cuts']), 'wire': True})
                     core_ops.append({'k': 'proc', 'src': 'dec', 'c': c, 'm': m, 'wire': True})
                     for _ in range(rng.choice([0, 1, 1, 2])):
                         core_ops.append({'k': 'view', 'src': 'dec', 'c': c, 'm': m, 'v': xv_views(rng, pool, m), 'ro': 0})
@@ -1199,8 +1216,11 @@ def gen_stream_history(rng, pool, n_msgs):
     rng.shuffle(few)
     kinds = rng.choice([['flat_text'], ['flat_text'], ['flat_text', 'nested_text'], ['nested_text', 'nested_json'], ['flat_text', 'flat_json']])
     ops = []
+    cuts = [x for f in pool['xv'] for x in f.get('cuts', [])]
     for i in range(n_msgs):
         m = few[i % len(few)] if rng.random() < 0.85 else rng.choice(names)
+        if cuts and rng.random() < 0.15:
+            ops.append({'k': 'proc', 'src': 'dec', 'c': c, 'm': rng.choice(cuts), 'wire': True})     # dies in the data section
         ops.append({'k': 'proc', 'src': 'dec', 'c': c, 'm': m, 'wire': True})
         for kd in kinds:
             ops.append({'k': 'view', 'src': 'dec', 'c': c, 'm': m, 'v': ['r', kd], 'ro': 0})
